@@ -524,8 +524,12 @@ func (w *writer) escapeQuoted(s string) string {
 				sb.WriteString("\\t")
 			}
 		case (c == '$' || c == '%') && i+1 < len(rs) && rs[i+1] == '{':
+			// escape of a template introducer: "$${" (the brace must stay a raw
+			// brace, or the doubled sign would be two literal signs)
 			sb.WriteRune(c)
 			sb.WriteRune(c)
+			sb.WriteRune('{')
+			i++
 		case c < 0x20 || c == 0x7f || c == 0x2028 || c == 0x2029 || c == 0x85:
 			fmt.Fprintf(&sb, "\\u%04x", c)
 		case c == utf8.RuneError:
@@ -586,7 +590,7 @@ func flatten(ps []TPart, out *[]string) {
 
 func heredocSafeText(s string) bool {
 	for _, c := range s {
-		if c == '\n' || c == ' ' {
+		if c == '\n' || c == ' ' || c == '\t' {
 			continue
 		}
 		if c < 0x20 || c == 0x7f || c == utf8.RuneError || c == 0x2028 || c == 0x2029 || c == 0x85 || c == '\r' {
@@ -662,6 +666,28 @@ func stripCrossesNewline(ps []TPart) bool {
 	return false
 }
 
+// BareTemplateEligible reports whether the template can be handed to the
+// bare-template parser with the same meaning as its quoted form: no strip
+// marker adjacent to whitespace that spans a newline (DESIGN §8 #14) and no
+// lone carriage return in its literals (known finding: a lone CR hides the
+// template sequences after it).
+func BareTemplateEligible(n *Node) bool {
+	if n.Kind != KTemplate || stripCrossesNewline(n.Parts) {
+		return false
+	}
+	var flat []string
+	flatten(n.Parts, &flat)
+	for _, f := range flat {
+		if f == "\x00" {
+			continue
+		}
+		if strings.Contains(strings.ReplaceAll(f, "\r\n", ""), "\r") || strings.HasPrefix(f, "\ufeff") {
+			return false
+		}
+	}
+	return true
+}
+
 // HeredocEligible reports whether the template can be written as a heredoc
 // with the same meaning: it ends in a literal newline, its literal text is
 // raw-representable, and no line equals the terminator.
@@ -696,6 +722,12 @@ func HeredocEligible(n *Node) bool {
 // line starts with literal text, no line is blank, and some line starts with a
 // non-space character.
 func flushOK(n *Node) bool {
+	// (whether strip markers are applied before or after the indentation
+	// analysis is not specified: templates with strip markers are not laid out
+	// as flush heredocs)
+	if hasStrip(n.Parts) {
+		return false
+	}
 	var flat []string
 	flatten(n.Parts, &flat)
 	atLineStart := true
@@ -715,7 +747,9 @@ func flushOK(n *Node) bool {
 				if c != ' ' && c != '\n' {
 					sawZero = true
 				}
-				if c == '\t' {
+				if c != ' ' && c != '\n' && unicode.IsSpace(c) {
+					// tabs, NBSP and other Unicode spaces at a line start: whether
+					// they count as indentation "spaces" is not specified
 					return false
 				}
 				atLineStart = false
@@ -932,4 +966,18 @@ func FixDollar(n *Node) {
 			rec(m.Parts)
 		}
 	})
+}
+
+func hasStrip(ps []TPart) bool {
+	for _, p := range ps {
+		for _, b := range p.Strip {
+			if b {
+				return true
+			}
+		}
+		if hasStrip(p.Then) || hasStrip(p.Else) {
+			return true
+		}
+	}
+	return false
 }
